@@ -17,6 +17,7 @@ func init() {
 	commands["c02"] = func(e *env) { fullStack(e, "C02", 2) }
 	commands["c09"] = func(e *env) { fullStack(e, "C09", 9) }
 	commands["c08"] = func(e *env) { fullStack(e, "C08", 8) }
+	commands["c01c"] = func(e *env) { fullStack(e, "C01", 21) } // L1 = chunked handler, real clock
 }
 
 // one step of a full-stack history, as written into replays and evidence
@@ -69,14 +70,27 @@ func genTTL(r *rig.Rand, now int64, w *rig.Writer) uint32 {
 		return uint32(1000 + r.Intn(100000))
 	case 5:
 		w.Count("ttl=30d-boundary")
+		if chunkedL1 {
+			return uint32(2592000 - 1 + r.Intn(2)) // 2592001 is an absolute time in the past
+		}
 		return uint32(2592000 - 1 + r.Intn(3))
 	case 6:
+		if chunkedL1 {
+			// the clock is the real one there: an absolute near-future TTL would not replay
+			w.Count("ttl=medium")
+			return uint32(5 + r.Intn(50))
+		}
 		w.Count("ttl=absolute-near")
 		return uint32(now + 1 + int64(r.Intn(6)))
 	case 7:
 		w.Count("ttl=absolute-far")
 		return uint32(now + 40*86400 + int64(r.Intn(1000)))
 	case 8:
+		if chunkedL1 {
+			// acknowledged without effect by the chunked handler (known finding): not generated here
+			w.Count("ttl=0")
+			return 0
+		}
 		w.Count("ttl=absolute-past")
 		return uint32(now - 1 - int64(r.Intn(1000)))
 	}
@@ -169,7 +183,7 @@ func genReq(r *rig.Rand, proto string, deploy string, now int64, w *rig.Writer) 
 			w.Count("get=quiet-batch-get")
 			return stack.Req{Kind: "get", Items: its}
 		case 14:
-			if proto == "bin" && deploy == "l1only" && r.Chance(50) {
+			if proto == "bin" && deploy == "l1only" && !chunkedL1 && r.Chance(50) { // GetE is documented as unsupported (panics) in the chunked handler
 				return stack.Req{Kind: "gete", Items: []stack.GItem{{Key: key(), Opaque: opq()}}}
 			}
 			if proto == "text" {
@@ -194,6 +208,9 @@ func genReq(r *rig.Rand, proto string, deploy string, now int64, w *rig.Writer) 
 func genCase(r *rig.Rand, mode int, deploy string, locked bool, proto string, nsteps int, w *rig.Writer) fsCase {
 	c := fsCase{Deploy: deploy, Locked: locked, Proto: proto, Keys: fsKeys}
 	now := int64(t0)
+	if chunkedL1 {
+		now = time.Now().Unix() // only used for the absolute-far TTL class
+	}
 	evp := map[int]int{1: 10, 2: 40, 9: 25}[mode]
 	for i := 0; i < nsteps; i++ {
 		switch r.Intn(10) {
@@ -218,6 +235,10 @@ func genCase(r *rig.Rand, mode int, deploy string, locked bool, proto string, ns
 			}
 		}
 		st.Req = genReq(r, proto, deploy, now, w)
+		if chunkedL1 && locked && proto == "text" && st.Req.Kind == "get" && len(st.Req.Items) > 1 {
+			// known finding (one END per key under the locking wrapper), decided by the c01 runs
+			st.Req.Items = st.Req.Items[:1]
+		}
 		c.Steps = append(c.Steps, st)
 	}
 	return c
@@ -227,6 +248,12 @@ func genCase(r *rig.Rand, mode int, deploy string, locked bool, proto string, ns
 func runCase(c fsCase, w *rig.Writer, refReplies [][]byte, noEvict bool) (coq string, nontrivial bool, failure *rig.GoFailure, replies [][]byte) {
 	b := stack.NewBackends()
 	b.L1.LogOn, b.L2.LogOn = false, false
+	l1kind := "std"
+	if chunkedL1 {
+		l1kind = "chunked"
+		b.L1.RealClock = func() int64 { return time.Now().Unix() }
+		b.L2.RealClock = b.L1.RealClock
+	}
 	mainOrca := "l1l2"
 	if c.Deploy == "l1only" {
 		mainOrca = "l1only"
@@ -237,7 +264,7 @@ func runCase(c fsCase, w *rig.Writer, refReplies [][]byte, noEvict bool) (coq st
 		if cn, ok := conns[port]; ok {
 			return cn
 		}
-		cn := stack.Dial(b, stack.Config{Orca: orcaOf[port], Locked: c.Locked, MultiRd: true, L1: "std", Proto: c.Proto})
+		cn := stack.Dial(b, stack.Config{Orca: orcaOf[port], Locked: c.Locked, MultiRd: !chunkedL1, L1: l1kind, Proto: c.Proto})
 		conns[port] = cn
 		return cn
 	}
@@ -251,6 +278,9 @@ func runCase(c fsCase, w *rig.Writer, refReplies [][]byte, noEvict bool) (coq st
 	for i, st := range c.Steps {
 		b.L1.SetNow(st.Now)
 		b.L2.SetNow(st.Now)
+		if chunkedL1 {
+			st.Now = time.Now().Unix()
+		}
 		if len(st.Evict) > 0 && !noEvict {
 			live := b.L1.Dump()
 			for _, k := range st.Evict {
@@ -268,6 +298,9 @@ func runCase(c fsCase, w *rig.Writer, refReplies [][]byte, noEvict bool) (coq st
 			bytesReq = st.Req.EncodeBin()
 		}
 		reply, closed, err := cn.Exchange(bytesReq, 10*time.Second)
+		if chunkedL1 && time.Now().Unix() != st.Now {
+			return "", false, nil, nil // the second changed during the command: the caller retries the case
+		}
 		if err != nil {
 			return "", false, &rig.GoFailure{Kind: "counterexample", What: "no complete reply within 10 s (hang)",
 				Input: truncCase(c, i+1), Detail: fmt.Sprintf("step %d: got %d bytes then timeout", i, len(reply))}, nil
@@ -327,6 +360,10 @@ func runCase(c fsCase, w *rig.Writer, refReplies [][]byte, noEvict bool) (coq st
 // for C02 a history is non-trivial only if an eviction removed a live L1 entry
 var mode2NT bool
 
+// chunkedL1: full-stack runs with the chunked handler as L1; the backends then follow the real
+// clock (the handler reads time.Now() itself)
+var chunkedL1 bool
+
 func truncCase(c fsCase, n int) fsCase {
 	d := c
 	if n < len(c.Steps) {
@@ -357,6 +394,7 @@ func fullStack(e *env, prop string, mode int) {
 	r := rig.NewRand(e.seed + uint64(mode)*1000003)
 	ttlBeyond = mode == 9
 	withStat = mode == 8
+	chunkedL1 = mode == 21
 	var cases []fsCase
 	if rp := replayArg(e); rp != "" {
 		var c fsCase
@@ -405,6 +443,12 @@ func fullStack(e *env, prop string, mode int) {
 			ref = r0
 		}
 		coq, nt, fail, _ := runCase(c, w, ref, false)
+		for try := 0; chunkedL1 && coq == "" && fail == nil && try < 5; try++ {
+			coq, nt, fail, _ = runCase(c, w, ref, false)
+		}
+		if chunkedL1 && coq == "" && fail == nil {
+			continue
+		}
 		if fail != nil {
 			w.Fail(*fail)
 			continue
@@ -413,8 +457,11 @@ func fullStack(e *env, prop string, mode int) {
 		w.Add(rig.Case{Desc: c, Coq: coq, Nontrivial: nt, Tags: caseTags(c)})
 	}
 	w.Res.Rule = "random histories (one PRNG) over 4 colliding keys, all nine data commands + multi-key/quiet gets + noop/version, TTL classes {0, small, large, 30d±1, absolute near/far/past}, logical clock, L1 evictions; non-trivial = history has a hit, a miss, a refused write and a multi-key get; distinct = different Gallina case term"
-	if err := w.Finish([]string{"base.Bytes", "base.Harness", "spec.MapSpec", "orca.Types", "proto.Resp", "checks.Check01"}, "case01",
-		fmt.Sprintf("check01 %d", mode)); err != nil {
+	fn := fmt.Sprintf("check01 %d", mode)
+	if mode == 21 {
+		fn = "check01c"
+	}
+	if err := w.Finish([]string{"base.Bytes", "base.Harness", "spec.MapSpec", "orca.Types", "proto.Resp", "checks.Check01"}, "case01", fn); err != nil {
 		rig.Die("%v", err)
 	}
 }
